@@ -81,6 +81,12 @@ _n = copy.deepcopy(_LIST_NODES)
 _n["pair"] = {"content": "(text | hard_break){2}", "group": "block"}
 FAMILY_SPECS["counted"] = {"nodes": _n, "marks": copy.deepcopy(_MARKS)}
 COUNTED_FAMILY = ["counted"]
+# a block container with a bounded number of children: whether two of them may be joined depends on how many remain
+# (Node.can_replace(index, index + 1) in can_join / join_point), which `block+` parents never decide
+_n = copy.deepcopy(_LIST_NODES)
+_n["trio"] = {"content": "block{2,3}", "group": "block"}
+FAMILY_SPECS["trio"] = {"nodes": _n, "marks": copy.deepcopy(_MARKS)}
+TRIO_FAMILY = ["trio"]
 _SCHEMAS: dict[str, Schema] = {}
 
 
